@@ -88,6 +88,9 @@ def xsents(text, enc="utf-8"):
 def one(rng):
     F = rng.choice(SRC)
     G = rng.choice(DEST)
+    want_foreign = F == "tigerxml" and rng.random() < 0.4
+    if want_foreign and rng.random() < 0.6:
+        G = "export"        # formats with lemma / morphology columns must cope with sources that have none
     cont = G == "brackets" or F == "brackets"
     senc = rng.choice(["utf-8", "utf-8", "latin-1", "utf-16"])
     denc = rng.choice(["utf-8", "utf-8", "latin-1", "utf-16"])
@@ -100,7 +103,7 @@ def one(rng):
         # the document declares its own encoding; re-declare for the chosen one
         src_text = src_text.replace("<?xml version='1.0'?>", "<?xml version='1.0' encoding='%s'?>" % senc)
     foreign = False
-    if F == "tigerxml" and rng.random() < 0.4:
+    if want_foreign:
         foreign = True
         # a foreign TIGER-XML file: optional attributes missing on some tokens
         import re as _re
